@@ -1,0 +1,62 @@
+//go:build verif
+
+package mempool
+
+// Contracts for the deductive checks in /verif (read by /verif/govc; comment-only, no code).
+
+//@ import list container/list
+//@ import types github.com/tendermint/tendermint/types
+
+// ASSUMED (trusted) contracts of container/list, over its real fields (List.len, Element.list, Element.Value).
+//@ extern list.List.Len
+//@   assigns nothing
+//@   ensures len: result == l.len && result >= 0
+//@ extern list.List.Front
+//@   assigns nothing
+//@   ensures empty: result == nil <==> l.len == 0
+//@   ensures member: result != nil ==> result.list == l
+//@ extern list.List.PushBack
+//@   assigns l.len, result.list, result.Value, all(list.Element.next), all(list.Element.prev)
+//@   ensures fresh: result != nil && old(result.list) == nil
+//@   ensures member: result.list == l && result.Value == v
+//@   ensures len: l.len == old(l.len) + 1
+//@ extern list.List.Remove
+//@   assigns l.len, e.list, all(list.Element.next), all(list.Element.prev)
+//@   ensures member: old(e.list) == l ==> (l.len == old(l.len) - 1 && e.list == nil)
+//@   ensures other: old(e.list) != l ==> (l.len == old(l.len) && e.list == old(e.list))
+//@ extern list.List.MoveToBack
+//@   assigns all(list.Element.next), all(list.Element.prev)
+//@ extern list.List.Init
+//@   assigns l.len, all(list.Element.next), all(list.Element.prev)
+//@   ensures empty: l.len == 0 && result == l
+
+//@ spec func txKey(tx []byte) []byte = sha256sum(tx)
+
+// Representation invariant of the LRU cache: every key of the map is held by an element of the cache's own list that
+// carries exactly that key.
+//@ spec func wfCache(c *LRUTxCache) bool = c.list != nil &&
+//@   | forall(k, has(c.cacheMap, k) ==> (c.cacheMap[k] != nil && c.cacheMap[k].list == c.list && payload(c.cacheMap[k].Value) == k))
+
+//@ func LRUTxCache.Push
+//@   requires wf: wfCache(c)
+//@   ensures wf: wfCache(c)
+//@   ensures fresh: result <==> !old(has(c.cacheMap, txKey(tx)))
+//@   ensures present: has(c.cacheMap, txKey(tx))
+//@   ensures bounded: (c.size >= 1 && old(c.list.len) <= c.size) ==> c.list.len <= c.size
+
+//@ func LRUTxCache.Remove
+//@   requires wf: wfCache(c)
+//@   ensures wf: wfCache(c)
+//@   ensures gone: !has(c.cacheMap, txKey(tx))
+//@   ensures others: forall(k, k != txKey(tx) ==> (has(c.cacheMap, k) <==> old(has(c.cacheMap, k))))
+//@   ensures shrink: c.list.len <= old(c.list.len)
+
+//@ func LRUTxCache.Has
+//@   requires wf: wfCache(c)
+//@   ensures def: result <==> has(c.cacheMap, txKey(tx))
+//@   ensures wf: wfCache(c)
+
+//@ func LRUTxCache.Reset
+//@   requires c.list != nil
+//@   ensures wf: wfCache(c)
+//@   ensures empty: forall(k, !has(c.cacheMap, k))
